@@ -378,6 +378,45 @@ def ninja_like(ctx):
     return 2
 
 
+REAL = {'cc': '/usr/bin/gcc', 'gcc': '/usr/bin/gcc', 'c++': '/usr/bin/g++',
+        'g++': '/usr/bin/g++', 'ar': '/usr/bin/ar'}
+
+
+def real_tool(ctx):
+    """Logging wrapper around the real gcc/g++/ar (C07): run the real tool,
+    then stamp what it wrote with the next logical tick and log the step."""
+    argv = ctx.argv
+    real = REAL[ctx.tool[len('real-'):]]
+    rc = os.spawnv(os.P_WAIT, real, [real] + argv)
+    outs = []
+    if ctx.tool == 'real-ar':
+        if len(argv) >= 2 and not argv[0].startswith('--'):
+            outs = [argv[1]]
+            ctx.reads = [ctx.rel(a) for a in argv[2:]]
+    else:
+        for i, a in enumerate(argv):
+            if a in ('-o', '-MF') and i + 1 < len(argv):
+                outs.append(argv[i + 1])
+        if '-o' in argv:
+            skip = set()
+            for i, a in enumerate(argv):
+                if a in GCC_ARG_OPTS:
+                    skip.add(i + 1)
+            ctx.reads = [ctx.rel(a) for i, a in enumerate(argv)
+                         if not a.startswith('-') and i not in skip]
+    if not outs:
+        return rc
+    if rc == 0:
+        tick = ctx.next_tick()
+        ns = (EPOCH + tick) * NS
+        for o in outs:
+            if os.path.exists(o):
+                os.utime(o, ns=(ns, ns))
+                ctx.writes.append(ctx.rel(o))
+    ctx.log(rc, 'real')
+    return rc
+
+
 TOOLS = {
     'cc': gcc_like, 'c++': gcc_like, 'gcc': gcc_like, 'g++': gcc_like,
     'ar': ar_like, 'simtool': simtool, 'cl': cl_like, 'link': link_like,
@@ -389,6 +428,8 @@ def main():
     world, tool = sys.argv[1], sys.argv[2]
     ctx = Ctx(world, tool, sys.argv[3:])
     fn = TOOLS.get(tool)
+    if tool.startswith('real-'):
+        fn = real_tool
     if fn is None:
         base = re.sub(r'[-_.0-9]+$', '', tool)
         fn = TOOLS.get(base, gcc_like)
